@@ -338,6 +338,7 @@ func c13RestOfC13(p *Prog, r *Report) {
 	c13YamlIndexAgreement(p, r)
 	c13FlagCharacters(p, r)
 	c13SiblingStateCalls(p, r)
+	c13MeasurementStores(p, r)
 }
 
 // soilSiblingPair: the two soil readers fill the same destinations with the same value shape (shared with C15.R7)
@@ -1757,5 +1758,96 @@ func c13SiblingStateCalls(p *Prog, r *Report) {
 			pos = pb
 		}
 		r.Ob("state-calls:"+k, pos, inA && inB, fmt.Sprintf("classic reader: %v (%s); YAML reader: %v (%s)", inA, pa, inB, pb))
+	}
+}
+
+// ---------------------------------------------------------------- store sites of the two measurement readers
+
+// c13MeasurementStores: the two measurement readers are the same routine over differently tokenised lines.  The
+// value-shape comparison joins the stores of one destination over all arms, so a store deleted in one arm of one reader
+// or an element index shifted there stays inside the joined set.  Demanded: for every state array, the multiset of
+// store sites (field, index expressions with local variables made anonymous) is the same in both readers.
+func c13MeasurementStores(p *Prog, r *Report) {
+	r.Rule("C13.measurement-stores", "the text and the CSV measurement reader have the same store sites: per state array the same number of stores with the same index expressions (local variables anonymous)", 5)
+	collect := func(key string) (map[string]int, map[string]string, bool) {
+		fi := p.Funcs[key]
+		if fi == nil {
+			return nil, nil, false
+		}
+		info := fi.Pkg.TypesInfo
+		var render func(e ast.Expr) string
+		render = func(e ast.Expr) string {
+			switch t := stripParens(e).(type) {
+			case *ast.Ident:
+				if v, ok := info.Uses[t].(*types.Var); ok && !v.IsField() && v.Parent() != v.Pkg().Scope() {
+					return "_"
+				}
+				return t.Name
+			case *ast.BasicLit:
+				return t.Value
+			case *ast.BinaryExpr:
+				return "(" + render(t.X) + t.Op.String() + render(t.Y) + ")"
+			case *ast.SelectorExpr:
+				return render(t.X) + "." + t.Sel.Name
+			case *ast.IndexExpr:
+				return render(t.X) + "[" + render(t.Index) + "]"
+			}
+			return types.ExprString(e)
+		}
+		cnt, pos := map[string]int{}, map[string]string{}
+		ast.Inspect(fi.Decl.Body, func(n ast.Node) bool {
+			as, ok := n.(*ast.AssignStmt)
+			if !ok {
+				return true
+			}
+			for _, l := range as.Lhs {
+				var idx []string
+				e := stripParens(l)
+				for {
+					ix, isIx := e.(*ast.IndexExpr)
+					if !isIx {
+						break
+					}
+					idx = append([]string{render(ix.Index)}, idx...)
+					e = stripParens(ix.X)
+				}
+				sel, isSel := e.(*ast.SelectorExpr)
+				if !isSel || len(idx) == 0 || !isNamed(info.TypeOf(sel.X), "hermes", "GlobalVarsMain") {
+					continue
+				}
+				k := sel.Sel.Name + fmt.Sprint(idx)
+				cnt[k]++
+				if pos[k] == "" {
+					pos[k] = p.Pos(as.Pos())
+				}
+			}
+			return true
+		})
+		return cnt, pos, true
+	}
+	a, pa, okA := collect("hermes.ExtractMeasuredDataTxt")
+	b, pb, okB := collect("hermes.ExtractMeasuredDataCSV")
+	if !okA || !okB {
+		r.Ob("measurement-stores", "-", false, "measurement reader not found")
+		return
+	}
+	keys := map[string]bool{}
+	for k := range a {
+		keys[k] = true
+	}
+	for k := range b {
+		keys[k] = true
+	}
+	var ks []string
+	for k := range keys {
+		ks = append(ks, k)
+	}
+	sort.Strings(ks)
+	for _, k := range ks {
+		pos := pa[k]
+		if pos == "" {
+			pos = pb[k]
+		}
+		r.Ob("measurement-stores:"+k, pos, a[k] == b[k], fmt.Sprintf("store sites of %s: %d in the text reader, %d in the CSV reader", k, a[k], b[k]))
 	}
 }
